@@ -226,17 +226,19 @@ inductive Loc where
 
 def fieldGet? (fs : List (String × Val)) (f : String) : Option Val := (fs.find? (·.1 == f)).map (·.2)
 
-def fieldSet (fs : List (String × Val)) (f : String) (v : Val) : List (String × Val) :=
-  if fs.any (·.1 == f) then fs.map (fun p => if p.1 == f then (f, v) else p) else fs ++ [(f, v)]
+/-- set field `f` (the first entry of that name — names are unique — or a new last entry) -/
+def fieldSet : List (String × Val) → String → Val → List (String × Val)
+  | [], f, v => [(f, v)]
+  | (g, w) :: rest, f, v => if g == f then (f, v) :: rest else (g, w) :: fieldSet rest f v
 
 def dictGet? (kvs : List (Val × Val)) (k : Val) : Option Val := (kvs.find? (fun kv => Val.beq kv.1 k)).map (·.2)
 
 def dictRemove (kvs : List (Val × Val)) (k : Val) : List (Val × Val) := kvs.filter (fun kv => !Val.beq kv.1 k)
 
-def dictInsert (kvs : List (Val × Val)) (k v : Val) : List (Val × Val) :=
-  if kvs.any (fun kv => Val.beq kv.1 k)
-  then kvs.map (fun kv => if Val.beq kv.1 k then (kv.1, v) else kv)
-  else kvs ++ [(k, v)]
+/-- set the entry of key `k` (the first entry with that key — keys are unique — or a new last entry) -/
+def dictInsert : List (Val × Val) → Val → Val → List (Val × Val)
+  | [], k, v => [(k, v)]
+  | (k', w) :: rest, k, v => if Val.beq k' k then (k', v) :: rest else (k', w) :: dictInsert rest k v
 
 /-- read a member of a composite object -/
 def memberOf (id : Nat) (f : String) : M Val := do
